@@ -316,16 +316,9 @@ Proof.
       assert (Hn' : cs_ninv (cs_union res rc)) by (apply cs_union_sub; assumption).
       assert (Hu : forall pr n, cs_denote (cs_union res rc) pr n = cs_denote res pr n || cs_denote rc pr n).
       { intros. apply cs_union_denote; [apply cs_ninv_wf | apply cs_sub_wf]; assumption. }
-      destruct (cs_all (cs_union res rc)) eqn:Hall.
-      * inversion H; subst c. split; [exact Hn'|]. intros pr n. cbn [existsb]. rewrite Hrule.
-        rewrite (cs_all_denote _ pr n Hall).
-        pose proof (Hu pr n) as Hun. rewrite (cs_all_denote _ pr n Hall), Hrden in Hun.
-        cbn [andb]. destruct (valid_port n) eqn:Hv; cbn [andb] in *.
-        -- destruct (cs_denote res pr n), (s_np_rule_ports (nr_ports r) dst pr n); cbn in *; try reflexivity; discriminate.
-        -- rewrite orb_false_r. symmetry. apply cs_denote_invalid. exact Hv.
-      * destruct (IH _ _ Hd Ht Hn' H) as [Hc Hden].
-        split; [exact Hc|]. intros pr n. cbn [existsb]. rewrite Hrule. rewrite Hden, Hu, Hrden. cbn [andb].
-        destruct (cs_denote res pr n), (valid_port n), (s_np_rule_ports (nr_ports r) dst pr n); reflexivity.
+      destruct (IH _ _ Hd Ht Hn' H) as [Hc Hden].
+      split; [exact Hc|]. intros pr n. cbn [existsb]. rewrite Hrule. rewrite Hden, Hu, Hrden. cbn [andb].
+      destruct (cs_denote res pr n), (valid_port n), (s_np_rule_ports (nr_ports r) dst pr n); reflexivity.
     + destruct (IH _ _ Hd Ht Hres H) as [Hc Hden].
       split; [exact Hc|]. intros pr n. cbn [existsb]. rewrite Hrule. rewrite Hden. cbn [andb orb]. reflexivity.
 Qed.
